@@ -21,6 +21,7 @@ import (
 	"crypto/x509"
 	"crypto/x509/pkix"
 	"encoding/asn1"
+	"encoding/json"
 	"encoding/pem"
 	"errors"
 	"fmt"
@@ -60,6 +61,15 @@ type hep struct {
 }
 
 var errNil = errors.New("nil result")
+
+// relErr is returned by an entry point whose reply contradicts an expectation carried by the step
+// (only the ber2der relations Accept => no error / output = ToDer, IsDer => identity).
+type relErr struct{ got, exp, note string }
+
+func (e *relErr) Error() string { return e.note }
+
+// extraEPs is filled by files behind build tags (export hooks that may not exist in the repository).
+var extraEPs []hep
 
 // ---------------------------------------------------------------- side inputs (cached per hex string)
 var hcache = map[string]interface{}{}
@@ -779,6 +789,11 @@ func hostileEPs() []hep {
 			_, _ = p7.Decrypt(certOf(in, "cert"), sm2Priv(in, "key"))
 			return err
 		}},
+		// ---- every short string over the BER alphabet (MC_C13ber): the BER front end of pkcs7
+		{"pkcs7.Parse(ber)", "ber", false, func(in *hin) error {
+			_, err := pkcs7.Parse(in.d)
+			return err
+		}},
 		// ---- pkcs ciphers (content-encryption payloads and their ASN.1 parameters)
 		{"pkcs.Cipher.Decrypt(ciphertext)", "pkcs-cipher-ct", true, func(in *hin) error {
 			var alg pkix.AlgorithmIdentifier
@@ -1098,6 +1113,8 @@ func runEP(ep *hep, in *hin) (err error, p *hpanic) {
 }
 
 var (
+	hSeen     = map[string]int{}
+	hMinLen   = map[string]int{}
 	hGuard    *guard.Buf
 	hGuardCap = 1 << 16
 )
@@ -1123,7 +1140,7 @@ func init() {
 	Register("hostile", func(t *Trace, env *Env) *Mismatch {
 		hostileInit()
 		if hostileTable == nil {
-			hostileTable = hostileEPs()
+			hostileTable = append(hostileEPs(), extraEPs...)
 		}
 		old := debug.SetPanicOnFault(true)
 		defer debug.SetPanicOnFault(old)
@@ -1155,6 +1172,9 @@ func init() {
 				}
 				ran++
 				err, p := runEP(ep, in)
+				if re, ok := err.(*relErr); ok && p == nil {
+					return &Mismatch{Step: i, Kind: "mismatch", Got: re.got, Exp: re.exp, Note: "ep=" + ep.name + " " + re.note}
+				}
 				if p != nil {
 					pans = append(pans, p)
 				} else if valid && ep.must && err != nil && !st.BoolOr("fixture", false) && !st.BoolOr("nomust", false) {
@@ -1169,27 +1189,48 @@ func init() {
 				panic("harness: hostile: no entry point for artefact type " + typ)
 			}
 			if len(pans) > 0 {
-				var sb strings.Builder
+				// Note: first line = JSON list of the distinct (entry point, repository frame, message); then the first stack
+				type site struct {
+					Ep   string `json:"ep"`
+					Site string `json:"site"`
+					Msg  string `json:"msg"`
+				}
+				var sites []site
 				seen := map[string]bool{}
 				for _, p := range pans {
-					k := "ep=" + p.ep + " site=" + p.site
+					k := p.ep + "\x00" + p.site
+					// flood control: a defect hit by (nearly) every input would bury the result file; after
+					// 25 reports per (entry point, site) and process only shorter inputs are reported
+					hSeen[k]++
+					if ml, ok := hMinLen[k]; !ok || len(orig) < ml {
+						hMinLen[k] = len(orig)
+					} else if hSeen[k] > 25 && typ != "ber" { // (ber: every string is reported, the model's prediction is compared with the code)
+						continue
+					}
 					if !seen[k] {
 						seen[k] = true
-						sb.WriteString(k)
-						sb.WriteString(" | ")
+						m := p.msg
+						if p.fault {
+							m = "FAULT (memory access outside the input): " + m
+						}
+						if len(m) > 200 {
+							m = m[:200]
+						}
+						sites = append(sites, site{p.ep, p.site, m})
 					}
 				}
-				sb.WriteString("\n")
+				if len(sites) == 0 {
+					continue
+				}
+				js, _ := json.Marshal(sites)
 				s := pans[0].stack
 				if len(s) > 2500 {
 					s = s[:2500]
 				}
-				sb.WriteString(s)
-				got := pans[0].msg
-				if pans[0].fault {
-					got = "FAULT (memory access outside the input): " + got
+				if hSeen[sites[0].Ep+"\x00"+sites[0].Site] > 25 {
+					s = "" // the stack of this site was already reported 25 times
 				}
-				return &Mismatch{Step: i, Kind: "panic", Got: got, Exp: "value or error", Note: sb.String()}
+				return &Mismatch{Step: i, Kind: "panic", Got: sites[0].Msg, Exp: "value or error", Note: string(js) + "\n" + s}
 			}
 		}
 		return nil
